@@ -102,4 +102,17 @@ REGISTRY = {
         "level_note": KERNEL_NOTE + " The dt formula is a hand model validated by numeric correspondence.",
         "technique": "Lean 4 proof (ordered-field inequalities) + numeric correspondence of the dt model",
     },
+    "C19": {
+        "modules": ["SophtVerif.Props.C19"],
+        "required_theorems": ["C19_brinkmann_2d", "C19_brinkmann_3d", "C19_brinkmann_fixed_2d", "C19_brinkmann_lagrangian",
+                              "C19_heaviside", "brink_between", "brink_contracts"],
+        "correspondence": ["corr.cases2d:run_wrappers"],
+        "oracle": "oracles.c19:run",
+        "trusted_base": TB_KERNEL + ["Real.sin / Real.pi instantiate the kernel's transcendental hooks (Transc); the recognised pi-multiples are listed in the evidence",
+                                     "Lagrangian Brinkmann variant: one-line hand model, tied by the oracle"],
+        "assumptions": ["exact real arithmetic (H(-eps) = 0 exactly; in floating point it is 0 within rounding)"],
+        "level_text": "Machine-checked proof (Lean 4): the generated Brinkmann kernels (2D, 3D, fixed value) and the Lagrangian variant are convex combinations of field and target for every penalty >= 0 and indicator >= 0, identity where the indicator vanishes, contraction by 1/(1+lambda*chi) (hence -> target); the generated smooth characteristic function (sine Heaviside, kernel at R with Real.sin/Real.pi) lies in [0,1], is 0 / 1 beyond the blend width and at -eps / +eps, is non-decreasing and satisfies H(phi)+H(-phi)=1 for all phi and eps > 0. Boundary-zone damping and Laplacian-filter statements: program-level theorems in progress; currently decided by model correspondence (2D damping) and evaluated on the implementation by the oracle (all widths 0..6, orders 1..4, both filter types, dirty buffers).",
+        "level_note": KERNEL_NOTE,
+        "technique": "Lean 4 proof over generated kernels (field_simp/linarith; Lipschitz bound of sin for monotonicity)",
+    },
 }
